@@ -411,6 +411,7 @@ pub fn c13(ctx: &Ctx, rep: &mut Report) {
         let r = fmt.reference(&bytes);
         let cap = gen::gen_cap(&mut rng, bytes.len(), &r.recs.iter().map(|x| x.extent()).collect::<Vec<_>>());
         rep.evaluations += 1;
+        rep.add("records_with_more_than_65535_lines", r.recs.iter().filter(|x| x.lines.len() > 65535).count() as u64);
         let replay = || {
             let mut j = ctx.replay_json(idx);
             j["input"] = json!(show(&bytes));
@@ -1127,7 +1128,7 @@ fn check_terminal_ops(rec: &fasta::RefRecord, lines: &[&[u8]]) -> Result<(), Str
             if bw != rest.iter().rev().copied().collect::<Vec<_>>() {
                 return Err(format!("rfold() after {} front / {} back steps", f, b));
             }
-            for k in 0..=rest.len() + 1 {
+            for k in sampled_ks(rest.len()) {
                 let got: Vec<&[u8]> = mk().rev().skip(k).collect();
                 let want: Vec<&[u8]> = rest.iter().rev().skip(k).copied().collect();
                 if got != want {
@@ -1157,6 +1158,19 @@ fn check_terminal_ops(rec: &fasta::RefRecord, lines: &[&[u8]]) -> Result<(), Str
     Ok(())
 }
 
+/// every k in 0..=n+1 for ordinary records; for very long ones the values around both ends, the
+/// middle and the 8-/16-bit boundaries (the callers do linear work per k)
+fn sampled_ks(n: usize) -> Vec<usize> {
+    if n <= 200 {
+        return (0..=n + 1).collect();
+    }
+    let mut v = vec![0, 1, 2, 255, 256, 257, n / 2, 65_534, 65_535, 65_536, 65_537, n - 1, n, n + 1];
+    v.retain(|k| *k <= n + 1);
+    v.sort();
+    v.dedup();
+    v
+}
+
 fn check_adaptors(rec: &fasta::RefRecord, lines: &[&[u8]]) -> Result<(), String> {
     let n = lines.len();
     let er: Vec<(usize, &[u8])> = rec.seq_lines().enumerate().rev().collect();
@@ -1168,7 +1182,7 @@ fn check_adaptors(rec: &fasta::RefRecord, lines: &[&[u8]]) -> Result<(), String>
     if rv != lines.iter().rev().copied().collect::<Vec<_>>() {
         return Err("rev() yields other items".into());
     }
-    for k in 0..=n + 1 {
+    for k in sampled_ks(n) {
         let s = rec.seq_lines().skip(k);
         if s.len() != n.saturating_sub(k) {
             return Err(format!("skip({}).len() is {}", k, s.len()));
@@ -1210,7 +1224,15 @@ pub fn c20(ctx: &Ctx, rep: &mut Report) {
         };
         // --- SeqLines: a record with k lines (k = 0..=6 exhaustive walks, more lines seeded)
         let g = idx * ctx.nshards + ctx.shard;
-        let k = if g < 7 { g as usize } else { rng.below(if ctx.miri { 5 } else { 14 }) };
+        // now and then a record with more lines than a 16-bit length holds
+        let huge = !ctx.miri && g >= 7 && rng.chance(1, 3000);
+        let k = if g < 7 {
+            g as usize
+        } else if huge {
+            65_530 + rng.below(200)
+        } else {
+            rng.below(if ctx.miri { 5 } else { 14 })
+        };
         let crlf = rng.chance(1, 3);
         let t: &[u8] = if crlf { b"\r\n" } else { b"\n" };
         let mut input = b">id desc".to_vec();
@@ -1233,6 +1255,12 @@ pub fn c20(ctx: &Ctx, rep: &mut Report) {
             if exhaustive {
                 for steps in 0..(1u64 << nsteps) {
                     walk(rec.seq_lines(), &lines, steps, nsteps)?;
+                    walks += 1;
+                }
+            } else if huge {
+                // the step-by-step walker takes its front/back choices from a 64-bit mask: first 60 steps only
+                for _ in 0..4 {
+                    walk(rec.seq_lines(), &lines, rng.next(), 60)?;
                     walks += 1;
                 }
             } else {
@@ -1261,6 +1289,9 @@ pub fn c20(ctx: &Ctx, rep: &mut Report) {
                 }
                 if k == 0 {
                     rep.count("zero_line_records");
+                }
+                if huge {
+                    rep.count("records_with_more_than_65535_lines");
                 }
                 let mut h = Fnv::new();
                 h.bytes(&input);
